@@ -3,7 +3,8 @@
 spec : PlanCatalog.tla (catalogue semantics of CREATE/ALTER/DROP with the engine's acceptance rules), PlanCatalogTrace.tla
 bind : C->S. All directed FK graphs with self loops over <= 3 tables x every split created/dropped/kept-and-modified, all graphs over
        4 tables for create-all / drop-all (thorough; quick samples by seed), random graphs over 5..8 tables, for mysql.DefaultPlan and
-       postgres.DefaultPlan; each planned statement is tokenised into catalogue events and TLC consumes the plan: a statement the
+       postgres.DefaultPlan, and every ordered pair of definitions of one foreign key modified in place (referenced table, ON UPDATE /
+       ON DELETE actions; alone or next to an added column); each planned statement is tokenised into catalogue events and TLC consumes the plan: a statement the
        catalogue would reject, a wrong end catalogue, a table created/dropped twice, a planner error or a planner that does not return
        are violations.
 """
@@ -16,7 +17,7 @@ def run(tier):
     r = vf.tlc("PlanCatalogMC", "PlanCatalog.mc.cfg", defines={"MaxLen": 6 if tier == "quick" else 7}, workers=8, heap="8g", timeout=1800)
     if not r.ok:
         raise vf.Infra("PlanCatalog.tla violates its own invariants: %s" % r.violated)
-    batches = [["-n", "2", "-roles", "all"], ["-n", "3", "-roles", "all"]]
+    batches = [["-n", "2", "-roles", "all"], ["-n", "3", "-roles", "all"], ["-fkmod"]]
     if tier == "quick":
         batches.append(["-n", "4", "-roles", "createdrop", "-sample", "0.05", "-random", "150"])
     else:
@@ -29,20 +30,24 @@ def run(tier):
         try:
             per, ev = plancat.validate(trace)
             events += ev
-            total += len(cases)
-            bad += len(per)
             byid = {c["id"]: c for c in cases}
+            if args == ["-fkmod"]:
+                # the up/down half of these scenarios is C17's
+                cases = [c for c in cases if c["dir"] == "fkmod-up"]
+                per = {cid: names for cid, names in per.items() if byid[cid]["dir"] == "fkmod-up"}
             for cid, names in sorted(per.items())[:300]:
                 c = byid[cid]
-                case = plancat.shape(c)
+                case = plancat.shape(c) if c["dir"] != "fkmod-up" else {"dialect": c["dialect"], "dir": c["dir"], "scenario": c["roles"]}
                 case["first_violation"] = names[0]
                 v.violation(case, {"violated": names, "planner_error": c.get("err"), "statements": c.get("stmts")})
+            total += len(cases)
+            bad += len(per)
             samples.append({"scenario": plancat.shape(cases[len(cases) // 2]), "statements": cases[len(cases) // 2].get("stmts")})
         finally:
             vf.rm(d)
     v.cov = {"states": r.distinct, "transitions": r.generated, "traces_validated_against_impl": total - bad, "plans": total, "events": events,
              "exhaustive": True, "batches": batches,
-             "explanation": "every FK digraph over <=3 tables x every created/dropped/kept split; 4-table create-all/drop-all; random 5..8-table graphs; both planners"}
+             "explanation": "every FK digraph over <=3 tables x every created/dropped/kept split; 4-table create-all/drop-all; random 5..8-table graphs; one foreign key modified in place over 27 definitions (702 ordered pairs); both planners"}
     v.samples = samples[:2]
     v.assumptions = ["the tokeniser of planned SQL (regular expressions over CREATE/ALTER/DROP TABLE and FOREIGN KEY clauses) is faithful",
                      "engine acceptance rules as in PlanCatalog.tla (parent must exist unless self reference; no drop while referenced by another table)"]
